@@ -657,23 +657,32 @@ def run(rep):
     nthreads = numba.get_num_threads()
     numba.set_num_threads(1)
     try:
-        bulk(rep, acc, tier)
-        random_stream(rep, acc, tier)
-        band_stream(rep, acc, tier)
-        boxtype_stream(rep, acc, tier)
-        inds_forms_stream(rep, tier)
+        # debugging knob (mutation tests): VERIF_C01_STREAMS=history,inds runs only those streams
+        sel = os.environ.get('VERIF_C01_STREAMS')
+        sel = set(sel.split(',')) if sel else None
+        for name, fn in (('bulk', lambda: bulk(rep, acc, tier)),
+                         ('random', lambda: random_stream(rep, acc, tier)),
+                         ('band', lambda: band_stream(rep, acc, tier)),
+                         ('boxtype', lambda: boxtype_stream(rep, acc, tier)),
+                         ('inds', lambda: inds_forms_stream(rep, tier)),
+                         ('history', lambda: history_stream(rep, acc, tier))):
+            if sel is None or name in sel:
+                fn()
     finally:
         numba.set_num_threads(nthreads)
     rep.extra['bulk_cpu_seconds'] = round(time.process_time(), 1)
     finish(rep, acc, tier, t0)
-    run_float_model(rep)
+    if sel is None or 'float' in sel:
+        run_float_model(rep)
 
 
 # ----------------------------------------------------------------------------
 # the at-inds form with `inds` given in every form a caller may give it
 # ----------------------------------------------------------------------------
-def _wide_element(kind, i, width):
+def _wide_element(kind, i, width, jitter=False):
     x, y = float(i % width), float(i // width)
+    if jitter:      # off the integer lattice, by quarters
+        x, y = x + ((7 * i) % 4) / 4, y + ((3 * i + 1) % 4) / 4
     tri = [x, y, x + .5, y, x, y + .5, x, y]
     return {'point': [x, y], 'multipoint': [x, y, x + .5, y], 'line': [x, y, x + .5, y + .5],
             'ring': tri, 'multiline': [[x, y, x + .5, y + .5], [x, y + .25, x + .25, y + .25]],
@@ -740,6 +749,228 @@ def inds_forms_stream(rep, tier):
                      f'{problem} ({detail})',
                      {**meta, 'form': fname, 'detail': detail, 'all_problems': [[a, c] for a, c, _ in probs][:40]})
     rep.extra['inds_forms_seconds'] = round(time.time() - t0, 1)
+
+
+# ----------------------------------------------------------------------------
+# the answer is a function of (element, box) only: not of what was done to the object before
+# ----------------------------------------------------------------------------
+def _probe(rep, ctx, hist, label, arr, series, pos, boxes, expected, inds, nscalar=4):
+    """every form of intersects_bounds on the object `arr` (whose element j is element pos[j] of the
+    fresh array), every box (all corner orders, rotating argument types), against the answers of a
+    never-touched array of the same elements (which the kernel compares with the model)"""
+    kind = ctx['kind']
+    m = len(pos)
+    pos_np = np.array(pos, dtype='int64')
+    ii = [i % m for i in inds] if m else []
+    ii_np = np.array(ii, dtype='int64')
+
+    def bad(form, b, bt, what, got, want, extra=None):
+        if isinstance(got, list) and isinstance(want, list) and len(want) > 64:
+            extra = {**(extra or {}), 'differs_at': [j for j, (x, y) in enumerate(zip(got, want)) if x != y][:20],
+                     'lengths': [len(got), len(want)]}
+            got = want = None
+        viol(rep, f'history-dependent:{kind}:{form}',
+             f'{kind}: intersects_bounds ({form} form) {what} after: {hist}' + (f' / {label}' if label else ''),
+             {**ctx, 'history': hist, 'label': label, 'form': form, 'box': list(b), 'box_type': bt,
+              'got': got, 'fresh_object_answers': want, **(extra or {})})
+    first = None
+    for bi, b in enumerate(list(boxes) + [boxes[0]]):
+        bt = U.BOXTYPES[(bi + len(label) + len(hist)) % len(U.BOXTYPES)]
+        ba = U.boxarg(b, bt)
+        want = expected[bi % len(boxes)][pos_np] if m else np.zeros(0, dtype=bool)
+        r1, r2 = impl_array(arr, ba, ii_np)
+        rep._c01_pairs += m
+        for form, r, w in (('array', r1, want), ('inds', r2, want[ii_np] if m else want)):
+            if isinstance(r, tuple):
+                bad(form, b, bt, f'raises {r[1]}: {r[2]}', list(r), w.tolist(), {'inds': ii})
+            elif not (len(r) == len(w) and np.array_equal(r, w)):
+                bad(form, b, bt, 'answers differently from a fresh array of the same elements',
+                    r.tolist(), w.tolist(), {'inds': ii})
+        if bi == 0 and not isinstance(r1, tuple):
+            first = r1
+        elif bi == len(boxes) and first is not None and not isinstance(r1, tuple) \
+                and not np.array_equal(first, r1):
+            bad('array', b, bt, 'gives two different answers to the same call', r1.tolist(), first.tolist())
+        for t in range(nscalar if m else 0):
+            j = (bi * 7 + t * 5 + len(hist)) % m
+            try:
+                el = arr[j]
+                g = False if el is None else bool(el.intersects_bounds(ba))
+            except Exception as e:  # noqa: BLE001
+                bad('scalar', b, bt, f'raises {type(e).__name__}: {str(e)[:120]}', None, bool(want[j]), {'index': j})
+                continue
+            rep._c01_scalar += 1
+            if g != bool(want[j]):
+                bad('scalar', b, bt, 'answers differently from a fresh array of the same element',
+                    g, bool(want[j]), {'index': j})
+        if series is not None:
+            try:
+                sr = series.intersects_bounds(ba)
+                got, idx = np.asarray(sr, dtype=bool), list(sr.index)
+            except Exception as e:  # noqa: BLE001
+                bad('series', b, bt, f'raises {type(e).__name__}: {str(e)[:120]}', None, want.tolist())
+                continue
+            if not (len(got) == len(want) and np.array_equal(got, want)):
+                bad('series', b, bt, 'answers differently from a fresh array of the same elements',
+                    got.tolist(), want.tolist())
+            elif idx != list(series.index):
+                bad('series', b, bt, 'returns a Series with another index', idx[:8], list(series.index)[:8])
+    rep.count('history:objects_probed')
+
+
+def _history_baseline(rep, acc, kind, st, els, boxes, family, scale=1, oracle_stride=1, oels=None):
+    """answers of a never-touched array for every box; they go to the kernel (model) and to the
+    point-set oracle, and the four corner orders of a box must agree; -> [bool array per box].
+    scale > 1: boxes and oels (the integer elements the oracle judges) are in units of 1/scale"""
+    arr = G.make_array(kind, els, st)
+    oels = els if oels is None else oels
+    meta = {'kind': kind, 'subtype': st, 'derivation': [],
+            'inds': [], 'family': family, 'boxes': [list(b) for b in boxes], 'both': False, 'qscale': scale}
+    if len(els) <= 64:
+        meta['elements'] = els
+    expected, results = [], []
+    for b in boxes:
+        bi = b if scale == 1 else tuple(c / scale for c in b)
+        r1, _ = impl_array(arr, bi, None)
+        if isinstance(r1, tuple):
+            viol(rep, f'raises:{kind}:array', f'{kind} intersects_bounds raised {r1[1]}: {r1[2]}',
+                 {**meta, 'box': list(b)})
+            return None
+        expected.append(r1)
+        results.append(C.Some(U.pack_np(r1)))
+        ob = U.orient(b)
+        deg = ob[0] == ob[2] or ob[1] == ob[3]
+        for i in range(0, len(els), oracle_stride):
+            check_oracle(rep, kind, oels[i], b, bool(r1[i]), deg, meta, i, els[i], bi)
+    for k in range(0, len(boxes), 4):
+        for j in range(1, 4):
+            if not np.array_equal(expected[k], expected[k + j]):
+                viol(rep, f'corner-order:{kind}', f'{kind}: result depends on the order of the box corners',
+                     {**meta, 'box': list(boxes[k + j]), 'other_box': list(boxes[k])})
+    if len(els) <= 64:
+        acc.add(f'run_array1_packed {MODEL_FN[kind]}', arr1_ty(kind), 'list (option Z)',
+                (C.Raw(C.coq(export(kind, arr, scale))), U.boxes_raw(boxes)), results, meta,
+                Acc.COST[kind] * len(els) * len(boxes))
+        rep.evaluations += 1
+        rep.count(f'cases:{kind}')
+    return expected
+
+
+def _wide_int(kind, i, width):
+    """_wide_element at a position off the integer lattice (quarters), as integers in units of 1/4"""
+    e = _wide_element(kind, i, width, jitter=True)
+
+    def q(x):
+        return [q(y) for y in x] if isinstance(x, list) else int(round(4 * x))
+    return q(e)
+
+
+def history_stream(rep, acc, tier):
+    """OBJECT HISTORY as a dimension (checklist 4/5): what was done to the array before the call
+    -- spatial index built through every public route (build_sindex with and without page_size / p,
+    .sindex, GeoSeries.sindex / build_sindex, GeoDataFrame.build_sindex, cx), earlier queries,
+    bounds computed, the object derived from an indexed one (slice / reverse / take / copy / pickle /
+    concat / mask) or indexed after being derived -- must not change any answer: whole-array form,
+    at-positions form, scalar form and GeoSeries form, every box in all four corner orders and
+    rotating argument types, equal bit for bit to the answers of a never-touched array of the same
+    elements; those go to the Coq model and to the exact oracle.  Small arrays (36 elements, one
+    index page or, with page_size <= 4, a tree of several levels) in the five subtypes, and arrays
+    of 1100 elements (three default pages of 512)."""
+    t0 = time.time()
+    rng = rep.rng
+    quick = tier == 'quick'
+    for rnd in range(2 if quick else 10):
+        for ki, kind in enumerate(G.KINDS):
+            # odd rounds: elements AND boxes on the quarter grid (float subtypes; model side in units of 1/4)
+            q = 4 if rnd % 2 else 1
+            st = G.SUBTYPES[(ki + 3 * rnd) % len(G.SUBTYPES)] if q == 1 else ('float64', 'float32')[(ki + rnd // 2) % 2]
+            n = 36
+            oels = U.history_elements(rng, kind, n, q)
+            els = oels if q == 1 else [U.scale_el(U.to_float(e), 1 / q) for e in oels]
+            boxes = U.history_boxes(rng, kind, q)
+            prm = U.history_params(rng, n)
+            inds = prm['perm'][::-1][:12]
+            expected = _history_baseline(rep, acc, kind, st, els, boxes, 'history', scale=q, oels=oels)
+            if q != 1:
+                boxes = [tuple(c / q for c in b) for b in boxes]
+            if expected is None:
+                continue
+            if any(e.any() and not e.all() for e in expected):
+                rep.nontrivial((kind, st, 'history', rnd))
+            ctx = {'family': 'history', 'kind': kind, 'subtype': st, 'elements': els, 'params': prm}
+            for hi, hist in enumerate(['none'] + U.HISTORIES):
+                if hist.startswith('cx') and quick:
+                    continue        # the indexer compiles the R-tree query class (seconds): thorough tier
+                try:
+                    objs = U.history_objects(hist, G.make_array(kind, els, st), prm)
+                except Exception as e:  # noqa: BLE001
+                    viol(rep, f'history-raises:{kind}', f'{kind}: {hist} raised {type(e).__name__}: {str(e)[:160]}',
+                         {**ctx, 'history': hist})
+                    continue
+                rep.count(f'history:{hist}')
+                for label, obj, series, pos in objs:
+                    _probe(rep, ctx, hist, label, obj, series, pos, boxes, expected, inds,
+                           nscalar=2 if label else 4)
+    # beyond one page of the default index (512): 1100 elements on the quarter grid
+    width, n = 40, 1100
+    cb = [(17, 13, 95, 82), (-4, -4, 170, 30), (61, 50, 66, 54), (80, 40, 150, 120)]   # units of 1/4
+    boxes = [U.reorder(b, k) for b in cb for k in range(4)]
+    for ki, kind in enumerate(G.KINDS):
+        missing = {5, 100, 513, 1025}
+        els = [None if i in missing else _wide_int(kind, i, width) for i in range(n)]
+        fl = [None if e is None else U.scale_el(U.to_float(e), .25) for e in els]
+        expected = _history_baseline(rep, acc, kind, 'float64', fl, boxes, 'history-large', scale=4,
+                                     oracle_stride=23, oels=els)
+        if expected is None:
+            continue
+        ctx = {'family': 'history-large', 'kind': kind, 'subtype': 'float64', 'n': n, 'width': width,
+               'missing': sorted(missing), 'qscale': 4, 'params': None}
+        prm = {'k': 1, 'perm': [3, 700, 512, 1099], 'mask': [True] * n}
+        inds = [0, 511, 512, 513, 1023, 1024, 1099, 100, 42 + 40 * 3]
+        hs = ['build_sindex()', 'GeoSeries.sindex', 'build_sindex(page_size=4)']
+        for hist in hs if not quick else hs[:2] + hs[2:] * (ki % 2):
+            objs = U.history_objects(hist, G.make_array(kind, fl, 'float64'), prm)
+            rep.count(f'history-large:{hist}')
+            for label, obj, series, pos in objs:
+                _probe(rep, ctx, hist, label, obj, series, pos, [tuple(c / 4 for c in b) for b in boxes],
+                       expected, inds, nscalar=3)
+    rep.extra['history_seconds'] = round(time.time() - t0, 1)
+
+
+def replay_history(rep, rp):
+    """rebuild the elements, perform the recorded history on a fresh array and ask again, in every
+    form and corner order; the reference is a never-touched array (compared with the model)"""
+    kind, st, hist = rp['kind'], rp['subtype'], rp['history']
+    rep._c01_nviol, rep._c01_pairs, rep._c01_scalar, rep._c01_oracle = {}, 0, 0, 0
+    if rp['family'] == 'history-large':
+        n, width, missing = rp['n'], rp['width'], set(rp['missing'])
+        els = [None if i in missing else U.scale_el(U.to_float(_wide_int(kind, i, width)), .25) for i in range(n)]
+        prm = {'k': 1, 'perm': [3, 700, 512, 1099], 'mask': [True] * n}
+    else:
+        els, prm = rp['elements'], rp['params']
+    boxes = [U.reorder(U.orient(tuple(rp['box'])), k) for k in range(4)]
+    fresh = G.make_array(kind, els, st)
+    expected = [np.asarray(fresh.intersects_bounds(b), dtype=bool) for b in boxes]
+    for b, e in zip(boxes, expected):
+        print('fresh array, box', b, ':', U.pack_np(e) if len(e) > 64 else e.astype(int).tolist())
+    ok = True
+    if len(els) <= 64:
+        q = 1 if all(float(c).is_integer() for c in G.flat_coords(els) + list(boxes[0])) else 4
+        bad = C.coq_mismatches(IMPORTS, f'run_array1_packed {MODEL_FN[kind]}', arr1_ty(kind), 'list (option Z)',
+                               [(export(kind, fresh, q), U.boxes_raw([tuple(int(c * q) for c in b) for b in boxes]))],
+                               [[C.Some(U.pack_np(e)) for e in expected]])
+        print('fresh array against the model:', 'agrees' if not bad else 'DIFFERS')
+        ok = not bad
+    ctx = {'family': rp['family'], 'kind': kind, 'subtype': st}
+    for label, obj, series, pos in U.history_objects(hist, G.make_array(kind, els, st), prm):
+        if label != rp.get('label', label):
+            continue
+        _probe(rep, ctx, hist, label, obj, series, pos, boxes, expected, rp.get('inds') or [0, 1, 2])
+    for vio in rep.violations:
+        r = vio.get('replay', {})
+        print('  ', vio['signature'], '-', vio['what'], '| box', r.get('box'), 'as', r.get('box_type'),
+              '| got', str(r.get('got'))[:200], '| fresh', str(r.get('fresh_object_answers'))[:200])
+    return ok and not rep.violations
 
 
 def run_float_model(rep):
@@ -1198,6 +1429,8 @@ def replay(rep, rp):
         for vio in rep.violations:
             print('  ', vio['signature'], '-', vio['what'])
         return not rep.violations
+    if rp.get('family') in ('history', 'history-large') and 'history' in rp:
+        return replay_history(rep, rp)
     kind = rp['kind']
     q = rp.get('qscale', 1) or 1      # boxes are stored in units of 1/q
 
